@@ -1,6 +1,7 @@
 package main
 
 import (
+	"time"
 	"fmt"
 	"math/big"
 	"strings"
@@ -206,6 +207,42 @@ func gadgetLemma(r *Run, family string, lf leaf) {
 		em2.Assert(conj(em2, facts))
 		em2.Assert("(not (and " + conj(em2, rest) + " " + goal() + "))")
 		r.Add(&Ob{Name: lf.name + "/complete", Family: family + "-completeness", Script: em2.String(), Values: sym.SortedAtomNames(em2.AtomsSeen), Bound: "all operand values allowed by: " + pre, Site: site, OnFail: replayC(em2.AtomsSeen)})
+		// The two lemmas above speak about the honest-prover MODEL of the hint functions (honestHints). That
+		// the repository's hint code follows the model is checked where the model branches: the solver
+		// supplies a witness with each operand at 0, 1 and p-1 (and one unrestricted), and the real gadget
+		// is run there with the repository's own hints; a refusal is the honest prover failing.
+		if lf.gadget != "" {
+			type pin struct{ in, val, label string }
+			pins := []pin{{"", "", "any"}}
+			for _, nm := range lf.ins {
+				pins = append(pins, pin{nm, "0", "0"}, pin{nm, "1", "1"}, pin{nm, P.String() + " -1", "p-1"})
+			}
+			for _, pn := range pins {
+				em4 := sym.NewEmitter()
+				em4.Refined = true
+				c4, _ := prelude(em4)
+				if pre != "" {
+					em4.Assert(pre)
+				}
+				if err := honestHints(em4, e); err != nil {
+					break
+				}
+				em4.Assert(c4)
+				name := lf.name + "/honest-witness[" + pn.label + "]"
+				if pn.in != "" {
+					v := pn.val
+					if strings.HasSuffix(v, " -1") {
+						v = "(- " + strings.TrimSuffix(v, " -1") + " 1)"
+					}
+					em4.Assert(fmt.Sprintf("(= %s %s)", pn.in, v))
+					name = lf.name + "/honest-witness[" + pn.in + "=" + pn.label + "]"
+				}
+				r.Add(&Ob{Name: name, Family: family + "-hint-conformance", Expect: smt.Sat, Script: em4.String(), Values: sym.SortedAtomNames(em4.AtomsSeen), Bound: "one solver-chosen operand tuple per branch point", Site: site + " (honest hints)", TO: 20 * time.Second,
+					OnWitness: replayC(em4.AtomsSeen),
+					// an operand value the precondition excludes: nothing to run
+					OnFail: func(res smt.Result) *Violation { return &Violation{Site: "benign:excluded"} }})
+			}
+		}
 	}
 }
 
